@@ -4,7 +4,7 @@ from plan import H
 UF = [("ruint::algorithms::DoubleWord::mul", "uf::mul_stub"),
       ("ruint::algorithms::DoubleWord::muladd", "uf::muladd_stub"),
       ("ruint::algorithms::DoubleWord::muladd2", "uf::muladd2_stub")]
-EXTRA_SHAPES = {(4, 3, 3)}   # both operands 3 limbs with two full rows (probed separately)
+EXTRA_SHAPES = set()   # (4, 3, 3) - both operands 3 limbs with two full rows - did not finish in 3000 s
 UFDOM = ("FULL limb contents; 64x64->128 multiply abstracted as an uninterpreted function with axioms 0*x=0, 1*x=x, "
          "commutativity, functional consistency, x*y <= (2^64-1)^2, x*y >= max(x,y) for x,y >= 1 (implementation and reference share it)")
 
